@@ -18,6 +18,8 @@ What is modelled
   * `normalFit`            scipy's `norm.fit`: mean and population standard deviation
   * `lognormalFit`         scipy's analytic branch of `lognorm.fit(floc=0)` followed by virocon's
                            `_scale` setter: `mu = log(exp(mean(log x)))`, sigma = rms deviation of the logs
+  * `normalFitFixedLoc/Scale`, `lognormalFitFixedMu/Sigma`   the same closed forms with one parameter fixed
+                           (scipy's `floc` / `fscale` / `f0` branches of `norm.fit` and `lognorm.fit(floc=0)`)
   * `normFit…`             `LogNormalNormFitDistribution._fit_mle`: sample mean and `ddof=1`
                            standard deviation of the *data*, mapped to (mu, sigma) by the moment equations
 What is not modelled: scipy's iterative optimisers (Nelder–Mead in `rv_continuous.fit`), see C12.
@@ -123,6 +125,42 @@ def lognormalFit [Add α] [Sub α] [Mul α] [Div α] [Zero α] [OfNat α 1] [LT 
       let lnd := xs.map log
       let mu := log (exp (meanL lnd))
       some (mu, sqrt (meanSqDev mu lnd))
+    else none
+
+/-! ### closed-form estimators with one parameter fixed (`f_mu` / `f_sigma` → scipy's `floc` / `fscale` / `f0`) -/
+
+/-- `NormalDistribution(f_mu=m).fit(data)` = `scipy.stats.norm.fit(data, floc=m)`:
+`scale = sqrt(((data - m)**2).mean())`.  `none` for an empty sample. -/
+def normalFitFixedLoc [Add α] [Sub α] [Mul α] [Div α] [Zero α] [OfNat α 1]
+    (sqrt : α → α) (m : α) : List α → Option α
+  | [] => none
+  | x :: xs => some (sqrt (meanSqDev m (x :: xs)))
+
+/-- `NormalDistribution(f_sigma=s).fit(data)` = `scipy.stats.norm.fit(data, fscale=s)`: `loc = data.mean()`
+(whatever `s`).  `none` for an empty sample. -/
+def normalFitFixedScale [Add α] [Div α] [Zero α] [OfNat α 1] : List α → Option α
+  | [] => none
+  | x :: xs => some (meanL (x :: xs))
+
+/-- `LogNormalDistribution(f_mu=m).fit(data)` = `lognorm.fit(data, floc=0, fscale=exp(m))`: scipy's analytic branch
+gives `shape = sqrt(mean((log x - log(scale))²))` with `scale = exp(m)`; virocon then restores `mu = m`.
+`none` if the sample is empty or has a non-positive value. -/
+def lognormalFitFixedMu [Add α] [Sub α] [Mul α] [Div α] [Zero α] [OfNat α 1] [LT α] [DecidableLT α]
+    (log exp sqrt : α → α) (m : α) (xs : List α) : Option α :=
+  match xs with
+  | [] => none
+  | _ :: _ =>
+    if xs.all (fun x => decide ((0 : α) < x)) then some (sqrt (meanSqDev (log (exp m)) (xs.map log)))
+    else none
+
+/-- `LogNormalDistribution(f_sigma=s).fit(data)` = `lognorm.fit(data, floc=0, f0=s)`:
+`scale = exp(mean(log x))`, stored as `mu = log(scale)` (whatever `s`). -/
+def lognormalFitFixedSigma [Add α] [Div α] [Zero α] [OfNat α 1] [LT α] [DecidableLT α]
+    (log exp : α → α) (xs : List α) : Option α :=
+  match xs with
+  | [] => none
+  | _ :: _ =>
+    if xs.all (fun x => decide ((0 : α) < x)) then some (log (exp (meanL (xs.map log))))
     else none
 
 /-- `LogNormalNormFitDistribution._fit_mle`: `mu_norm = np.mean(sample)`,
